@@ -145,8 +145,8 @@ def schemas(rng):
     x = rng.choice("xyz")
     y = rng.choice([v for v in "xyz" if v != x])
     c1, c2 = rnd_coef(rng), rnd_coef(rng)
-    n = rng.choice([None, 2, 3, 4, -1])
-    m = rng.choice([None, 2, 3, 5])
+    n = rng.choice([None, 2, 3, 4, -1, 0, 1, -3, F(5, 2), F(1, 2)])
+    m = rng.choice([None, 2, 3, 5, 0, F(3, 2)])
     out = []
     # commutative
     out.append(("swap a+b", "cs1", B("add", a, b), B("add", b, a), NO_ADD_PARENT, True))
@@ -189,8 +189,8 @@ def schemas(rng):
     out.append(("a + -cx -> a - cx", "rs", B("add", a, term(-pc, x, None)), B("sub", a, term(pc, x, None)), NO_ADD_PARENT, True))
     out.append(("a - cx -> a + -cx", "rs", B("sub", a, term(pc, x, None)), B("add", a, term(-pc, x, None)), RS_CTX, True))
     # variable multiply
-    e1 = rng.choice([None, 2, 3, -2, 0])
-    e2 = rng.choice([None, 2, 5, -1])
+    e1 = rng.choice([None, 2, 3, -2, 0, 1, F(1, 2)])
+    e2 = rng.choice([None, 2, 5, -1, 0, F(5, 2)])
     out.append(("x^a * x^b", "vm", B("mul", term(None, x, e1), term(None, x, e2)), ("vm", None, None, x, e1, e2), ANY, True))
     out.append(("c1x^a * c2x^b", "vm", B("mul", term(c1, x, e1), term(c2, x, e2)), ("vm", c1, c2, x, e1, e2), ANY, True))
     out.append(("x * y not combinable", "vm", B("mul", term(None, x, e1), term(None, y, e2)), None, ANY, False))
